@@ -12,7 +12,8 @@ ROUND2 = len(sys.argv) > 2 and sys.argv[2] == "round2"
 ROUND3 = len(sys.argv) > 2 and sys.argv[2] == "round3"
 ROUND4 = len(sys.argv) > 2 and sys.argv[2] == "round4"
 ROUND5 = len(sys.argv) > 2 and sys.argv[2] == "round5"
-suffix = "_r2" if ROUND2 else ("_r3" if ROUND3 else ("_bn" if BENIGN else ("_r4" if ROUND4 else ("_r5" if ROUND5 else ""))))
+ROUND6 = len(sys.argv) > 2 and sys.argv[2] == "round6"
+suffix = "_r2" if ROUND2 else ("_r3" if ROUND3 else ("_bn" if BENIGN else ("_r4" if ROUND4 else ("_r5" if ROUND5 else ("_r6" if ROUND6 else "")))))
 root = os.path.dirname(os.path.dirname(os.path.abspath(__file__)))
 prop = next(json.loads(l) for l in open(os.path.join(root, "properties.jsonl")) if json.loads(l)["id"] == pid)
 wt = f"/tmp/mut_{pid}{suffix}"
@@ -22,7 +23,8 @@ files = ", ".join(prop["anchors"]["files"])
 extra = ("""
 This is a SECOND round: a first round already tried the obvious single-call defects. Prefer defects that only show (a) when ONE object (manager, wrapper, component, simulation, trainer) is used for a multi-step history — several episodes, options changed through public setters between uses, a second call after a first one, (b) through aliasing or shared mutable state between two objects built in the same process, (c) for inputs that are equal as values but differ in representation or ordering (dict insertion order, id order, numpy memory layout/dtype, tuple vs list, int vs numpy int), or (d) only for a particular combination of three or more options/agents. A check that builds a fresh object per case and feeds canonical inputs must NOT be able to see your change.""" if ROUND2 else ("""
 This is a THIRD round: earlier rounds tried single-call defects and defects that need object histories, aliasing or unusual representations. Assume the checker generates many SMALL cases (grids up to about 6x6, up to about 7 agents, ranges up to about 6, histories up to about 40 operations, small integers) exhaustively and at random, also with object reuse. Prefer defects that only show at SCALE or at EXTREMES that such generators do not reach: ten or more rows/columns, eleven or more agents (ids like agent10 sort before agent2), view/move/attack ranges of 8 and more or larger than the grid, more than 9 encodings, two-digit counts, histories of 50+ steps or 3+ episodes, values at the ends of integer or float ranges, accumulation effects (rounding of many small rewards, counters), performance shortcuts that change results only above a threshold. The defect must still be realistic and must still leave the test suite unchanged.""" if ROUND3 else ("""
-This is a FOURTH round. Assume the checker is STRONG: it drives the real code with exhaustive small cases and many random ones, with a share of big cases (20x20 grids, 15+ agents, 1000+ agents under a manager, ranges of 15+, episodes of 500 steps), with multi-episode histories on one object, second objects alive in the same process, options changed through setters, numpy and Python representations of the same values, and it compares EVERY observable result and the state after every call with an executable reference model. Find what such a checker would plausibly still miss. Prefer: (a) a defect placed OUTSIDE the anchored files - in a base class, the agent classes, a utility, a registry, a helper the anchored code calls, or in the interplay of two components or wrapper layers - that nevertheless breaks THIS property; (b) a defect that needs a rare CONJUNCTION of three or more independent conditions (particular agent kinds in a particular dictionary order, with a particular option, at a particular position or value); (c) code reached only through an optional keyword argument, a rarely used public method, property or class-level default; (d) particular numeric values (exact ties, exact boundaries such as health exactly equal to attack strength, accuracy exactly 1.0 or 0.0, a draw landing exactly on a threshold, negative zero, values that differ only beyond float32 precision); (e) a dependence on object identity, hash order or garbage left behind by an exception raised in an earlier call. The defect must still be realistic (a plausible maintainer slip) and must still leave the test suite unchanged.""" if ROUND4 else "")))
+This is a FOURTH round. Assume the checker is STRONG: it drives the real code with exhaustive small cases and many random ones, with a share of big cases (20x20 grids, 15+ agents, 1000+ agents under a manager, ranges of 15+, episodes of 500 steps), with multi-episode histories on one object, second objects alive in the same process, options changed through setters, numpy and Python representations of the same values, and it compares EVERY observable result and the state after every call with an executable reference model. Find what such a checker would plausibly still miss. Prefer: (a) a defect placed OUTSIDE the anchored files - in a base class, the agent classes, a utility, a registry, a helper the anchored code calls, or in the interplay of two components or wrapper layers - that nevertheless breaks THIS property; (b) a defect that needs a rare CONJUNCTION of three or more independent conditions (particular agent kinds in a particular dictionary order, with a particular option, at a particular position or value); (c) code reached only through an optional keyword argument, a rarely used public method, property or class-level default; (d) particular numeric values (exact ties, exact boundaries such as health exactly equal to attack strength, accuracy exactly 1.0 or 0.0, a draw landing exactly on a threshold, negative zero, values that differ only beyond float32 precision); (e) a dependence on object identity, hash order or garbage left behind by an exception raised in an earlier call. The defect must still be realistic (a plausible maintainer slip) and must still leave the test suite unchanged.""" if ROUND4 else ("""
+This is a SIXTH round. Assume the checker is STRONG: it drives the real code with exhaustive small cases and many random ones (a share of them big), with multi-episode histories on one object, second objects alive in the same process, options changed through setters, caller-side edits of everything handed in or handed back, numpy and Python representations of the same values, and it compares every observable result and the state after every call with an executable reference model. Find what it would plausibly still miss. This round is about FAULTS, INTERLEAVINGS and COOPERATING SITES: (a) a FAULT AT A PARTICULAR POINT - an exception raised part-way through a multi-step operation (by the wrapped simulation, by one bad item among good ones in a dictionary, by a rejected setter, by a component) after which the object is used again legally and now misbehaves because the interrupted operation left half-updated state; (b) TWO COOPERATING SITES that each look fine alone (a producer that changes what it stores and a consumer that changes how it reads, a default changed in one place and relied on in another, a helper that starts returning a view / generator / other type and one caller of several that cannot cope); (c) a particular INTERLEAVING of public calls that are usually made in a fixed order (a getter called twice or not at all between steps, get_obs before the first reset or after the last step, reset called twice in a row or in the middle of an episode, step after the episode finished, render or a property read in between, two wrappers / managers sharing one simulation used alternately); (d) a MULTI-STEP SEQUENCE in which the first steps only prepare the state (an agent dies, a counter passes a value, a buffer fills) and the defect shows several calls later. The defect must still be realistic (a plausible maintainer slip) and must still leave the test suite unchanged.""" if ROUND6 else ""))))
 if BENIGN:
     print(f"""You are helping to evaluate a verification effort: its checks must stay QUIET on harmless changes. You get ONE semantic property of the Python package LLNL/Abmarl and your own scratch git worktree of its repository at {wt} (a detached checkout; work ONLY there; do NOT read or use anything under /verif or /repo).
 
